@@ -483,6 +483,26 @@ def descs_C09(tier):
         yield dict(func="active_edges_acyclic", n=4, edges=[list(e) for e in edges], form="vars")
     for (n, edges) in ROUND_GRAPHS:
         yield dict(func="active_edges_acyclic", n=n, edges=[list(e) for e in edges], form="vars", keep_orientation=True)
+    # more vertices than edges (isolated vertices, large vertex numbers next to few edges): a parallel pair or a triangle
+    # plus one further edge, at every / every third placement
+    import itertools as _it
+    step = 3 if tier == "quick" else 1
+    k = 0
+    for n in (6, 7):
+        pairs = list(_it.combinations(range(n), 2))
+        for (a, b) in pairs:
+            for (u, v) in pairs:
+                k += 1
+                if k % step == 0:
+                    yield dict(func="active_edges_acyclic", n=n, edges=[[u, v], [a, b], [a, b]], form="vars", keep_orientation=True)
+    for n in (8,):
+        pairs = list(_it.combinations(range(n), 2))
+        for tri in _it.combinations(range(n), 3):
+            for (u, v) in pairs:
+                k += 1
+                if k % (step * 4) == 0:
+                    a, b, c = tri
+                    yield dict(func="active_edges_acyclic", n=n, edges=[[u, v], [a, b], [a, c], [b, c]], form="vars", keep_orientation=True)
     if tier != "quick":
         for edges in simple_graphs(5):
             yield dict(func="active_edges_acyclic", n=5, edges=[list(e) for e in edges], form="vars")
